@@ -20,6 +20,7 @@ EXPLANATION = (
   "PAC domain, so lookup order can never matter (the disassembler uses another order); (SHAPE) every find() is 'first member whose "
   "value tuple contains the word', both bytes pass through the parity mask before any classification and every constructor path "
   "goes through from_bytes; (DSP) the disassembler has a branch for every code class and every path returns a string."
+  " (STATE-alias / STATE-global) no function of the anchored modules mutates a module- or class-level container, rebinds module / class state or mutates a mutable default argument, so a result never depends on earlier calls;"
 )
 RULE_TEXT = "per table entry, per helper x domain point (aggregated per helper), per word (aggregated), per structural shape"
 UNDECIDED = ["nothing of substance; the glyph choice for six line-drawing/dash extended characters admits light or heavy Unicode forms",
